@@ -1,5 +1,6 @@
 import Kaira.Verbs18
 import Kaira.Verbs16
+import Kaira.Verbs17
 open Kaira
 
 def natVerb (verb : String) (args : List String) : Option String :=
@@ -12,7 +13,7 @@ def dispatch (line : String) : String :=
   | [] => "bad-op"
   | verb :: args =>
     let r := (natVerb verb args).orElse fun _ =>
-      (Verbs.c16 (verb :: args))
+      ((Verbs.c16 (verb :: args)).orElse fun _ => Verbs.c17 (verb :: args))
     match r with
     | some out => out
     | none => "bad-op"
